@@ -35,6 +35,7 @@ type xval struct {
 	n      int  // container length
 	notAmb bool // result of `not` on a non-bool: printed form has accepted alternatives
 	notSrc xkind
+	zamb   bool // string that contains the printed form of a float zero (its sign is unspecified)
 }
 
 type xnode struct {
@@ -228,7 +229,8 @@ func (e *xeval) eval(n *xnode) (xval, xstatus) {
 			if l.k > kB || r.k > kB {
 				return l, stUnjudged
 			}
-			return xval{k: kS, s: printed(l) + printed(r)}, stOK
+			zamb := l.zamb || r.zamb || (l.k == kF && l.f == 0) || (r.k == kF && r.f == 0)
+			return xval{k: kS, s: printed(l) + printed(r), zamb: zamb}, stOK
 		}
 		if !num(l) || !num(r) {
 			return l, stUnjudged
@@ -316,7 +318,7 @@ func (e *xeval) eval(n *xnode) (xval, xstatus) {
 		}
 		return xval{k: kB, b: b}, stOK
 	case "==", "!=":
-		if l.k != r.k || l.k > kB {
+		if l.k != r.k || l.k > kB || l.zamb || r.zamb {
 			return l, stUnjudged
 		}
 		var eq bool
@@ -335,6 +337,9 @@ func (e *xeval) eval(n *xnode) (xval, xstatus) {
 		}
 		return xval{k: kB, b: eq}, stOK
 	case "in":
+		if l.zamb || r.zamb {
+			return l, stUnjudged
+		}
 		switch {
 		case l.k == kS && r.k == kS:
 			return xval{k: kB, b: strings.Contains(r.s, l.s)}, stOK
